@@ -562,6 +562,20 @@ def m_res_map(M, a, c, fr):
     return r
 
 
+def m_res_ok(M, a, c, fr):
+    r = a[0]
+    return opt_some(payload(r, 0)[0]) if is_variant(M, r, 0, 'Result::ok') else opt_none()
+
+
+def m_res_err(M, a, c, fr):
+    r = a[0]
+    return opt_some(payload(r, 1)[0]) if is_variant(M, r, 1, 'Result::err') else opt_none()
+
+
+def m_res_is(M, a, c, fr):
+    r = deref(M, a[0]); return z3.BoolVal(is_variant(M, r, 0, 'Result::is_ok') == c.endswith('is_ok'))
+
+
 def m_try_branch(M, a, c, fr):
     r = a[0]
     if r.enum == 'Option':
@@ -632,6 +646,10 @@ def m_str_is_empty(M, a, c, fr): return z3.BoolVal(len(sbytes(M, a[0])) == 0)
 
 def m_str_eq(M, a, c, fr):
     x, y = deref(M, a[0]), deref(M, a[1])
+    # an opaque string against a literal: may or may not be equal (one free boolean per pair); opaque against opaque: distinct tokens are distinct strings (stated assumption)
+    if isinstance(x, Tok) != isinstance(y, Tok):
+        t, l = (x, y) if isinstance(x, Tok) else (y, x)
+        if isinstance(l, ValSlice) and all(z3.is_bv_value(b) for b in l.elems): return z3.Bool('str_eq(%s,%r)' % (t.name, bytes(b.as_long() for b in l.elems)))
     return M.val_eq(x, y)
 
 
@@ -781,20 +799,66 @@ def ordering(lt, eq):
     return EnumV('Ordering', z3.If(lt, bv(-1 & 0xFF, 8), z3.If(eq, bv(0, 8), bv(1, 8))), {0: [], 1: [], 2: []})
 
 
-def tid_of(name):
-    import hashlib
+def tid_of(name, sort=None):
+    # a TypeId is an opaque constant named after the type; harnesses that model TypeIds with an uninterpreted sort say so in aux['tid_sort']
+    if sort is not None: return z3.Const('TypeId::of<%s>' % name, sort)
     return z3.BitVec('TypeId::of<%s>' % name, 128)
 
 
 def m_typeid_of(M, a, c, fr):
     m = re.fullmatch(r'TypeId::of::<(.*)>', c)
     M.aux.setdefault('typeid_of_log', []).append(m.group(1))
-    return tid_of(m.group(1))
+    return tid_of(m.group(1), M.aux.get('tid_sort'))
 
 
 def m_typeid_eq(M, a, c, fr): return deref(M, a[0]) == deref(M, a[1])
+def opaque_lt(M, x, y):
+    """strict total order on an uninterpreted sort: an injective rank into the integers, instantiated at the compared pair"""
+    rank = z3.Function('rank_' + x.sort().name(), x.sort(), z3.IntSort())
+    M.add((rank(x) == rank(y)) == (x == y))
+    return rank(x) < rank(y)
+
+
 def m_typeid_cmp(M, a, c, fr):
-    x, y = deref(M, a[0]), deref(M, a[1]); return ordering(z3.ULT(x, y), x == y)
+    x, y = deref(M, a[0]), deref(M, a[1])
+    if not z3.is_bv(x): return ordering(opaque_lt(M, x, y), x == y)
+    return ordering(z3.ULT(x, y), x == y)
+
+
+def m_opaque_cmp(M, a, c, fr):
+    x, y = deref(M, a[0]), deref(M, a[1])
+    if not (z3.is_expr(x) and z3.is_expr(y) and x.sort().kind() == z3.Z3_UNINTERPRETED_SORT): raise Inconclusive('Ord::cmp on %r' % (x,))
+    return ordering(opaque_lt(M, x, y), x == y)
+
+
+def m_binary_search_by(M, a, c, fr):
+    """core::slice::binary_search_by, the algorithm of the pinned std (base/size halving), on a slice of concrete length"""
+    xs = seq_elems(M, deref(M, a[0])); f = a[1]
+    def cmp(i):
+        o = M.call_value(f, [Ref(Cell(xs[i]))])
+        d = o.discr if not isinstance(o.discr, int) else bv(o.discr & 0xFF, 8)
+        if M.concrete_bool(d == bv(1, 8), 'bsearch.gt'): return 1
+        return 0 if M.concrete_bool(d == bv(0, 8), 'bsearch.eq') else -1
+    size = len(xs)
+    if size == 0: return res_err(BV64(0))
+    base = 0
+    while size > 1:
+        half = size // 2; mid = base + half
+        if cmp(mid) != 1: base = mid
+        size -= half
+    o = cmp(base)
+    if o == 0: return res_ok(BV64(base))
+    return res_err(BV64(base + (1 if o == -1 else 0)))
+
+
+def m_vec_insert(M, a, c, fr):
+    v = M.load(a[0])
+    if not isinstance(v, VecV): raise Inconclusive('Vec::insert on %r' % (v,))
+    n = M.concrete(v.len, 'insert.len'); k = M.concrete(a[1], 'insert.index')
+    if k > n: raise Panic('insertion index out of bounds')
+    del v.elems[n:]
+    v.elems.insert(k, a[2]); v.len = BV64(n + 1)
+    return []
 def m_typeid_hash(M, a, c, fr):
     M.aux.setdefault('hash_log', []).append(deref(M, a[0])); return []
 
@@ -805,6 +869,23 @@ def m_ref_eq(M, a, c, fr):
     inner = m.group(1)
     x, y = M.load(a[0]), M.load(a[1])
     return M.call('<%s as PartialEq>::%s' % (inner, m.group(3)), [x, y], fr)
+
+
+def m_int_from(M, a, c, fr):
+    """lossless integer conversions From<uN>/From<iN>/From<bool> for wider integers; TryFrom between integers"""
+    m = re.fullmatch(r'<([ui](?:8|16|32|64|128|size)) as (Try)?From<([ui](?:8|16|32|64|128|size)|bool)>>::(?:try_)?from', c)
+    dst, tr, src = m.group(1), m.group(2), m.group(3)
+    x = a[0]; wd = BITS[dst]
+    if src == 'bool': return z3.If(x, bv(1, wd), bv(0, wd))
+    ws = BITS[src]; signed_s, signed_d = src[0] == 'i', dst[0] == 'i'
+    if not tr:
+        return z3.SignExt(wd - ws, x) if signed_s else z3.ZeroExt(wd - ws, x)
+    W = max(ws, wd) + 1
+    wide = z3.SignExt(W - ws, x) if signed_s else z3.ZeroExt(W - ws, x)
+    lo, hi = (-(1 << (wd - 1)), (1 << (wd - 1)) - 1) if signed_d else (0, (1 << wd) - 1)
+    fits = z3.And(wide >= z3.BitVecVal(lo, W), wide <= z3.BitVecVal(hi, W))
+    if M.concrete_bool(fits, 'try_from.fits'): return res_ok(z3.Extract(wd - 1, 0, wide))
+    return res_err(Tok('TryFromIntError'))
 
 
 def m_into_via_from(M, a, c, fr):
@@ -950,6 +1031,7 @@ MODELS = [
     (r'<(std::option::)?Option<.*> as PartialEq>::eq', m_opt_eq),
     (r'Option::<.*>::(expect|unwrap)', m_opt_expect),
     (r'Result::<.*>::(expect|unwrap)', m_res_expect), (r'Result::<.*>::unwrap_or_else::<.*>', m_res_unwrap_or_else),
+    (r'Result::<.*>::ok', m_res_ok), (r'Result::<.*>::err', m_res_err), (r'Result::<.*>::is_(ok|err)', m_res_is),
     (r'Result::<.*>::map_err::<.*>', m_res_map_err), (r'Result::<.*>::map::<.*>', m_res_map),
     (r'<(Result|Option)<.*> as Try>::branch', m_try_branch), (r'<(Result|Option)<.*> as FromResidual<.*>>::from_residual', m_from_residual),
     # str / bytes
@@ -967,6 +1049,7 @@ MODELS = [
     (r'<&str as Into<String>>::into', m_str_to_owned), (r'<String as From<&str>>::from', m_str_to_owned),
     (r'(alloc|std)::string::<impl ToString for str>::to_string|<str as ToString>::to_string|<str as ToOwned>::to_owned', m_str_to_owned),
     # TypeId
+    (r'core::slice::<impl \[.*\]>::binary_search_by::<.*>', m_binary_search_by), (r'Vec::<.*>::insert', m_vec_insert), (r'<T as Ord>::cmp', m_opaque_cmp),
     (r'TypeId::of::<.*>', m_typeid_of), (r'<TypeId as PartialEq>::eq', m_typeid_eq), (r'<TypeId as Ord>::cmp', m_typeid_cmp),
     (r'<(TypeId|usize|u8|u16|u32|u64|u128|isize|i32|i64|bool|str|String) as Hash>::hash::<.*>', m_typeid_hash), (r'<TypeId as Clone>::clone', lambda M, a, c, fr: deref(M, a[0])),
     (r'<&(mut )?(?!str\b)[\w:]+(<.*>)? as PartialEq(<.*>)?>::(eq|ne)', m_ref_eq),
@@ -975,6 +1058,7 @@ MODELS = [
     (r'<.* as Iterator>::size_hint', m_iter_size_hint), (r'Vec::<.*>::with_capacity', m_vec_with_capacity), (r'Vec::<.*>::reserve', lambda M, a, c, fr: []),
     (r'(core|alloc|std)::str::<impl str>::\w+(::<.*>)?', m_str_opaque), (r'String::(replace|trim\w*|contains|starts_with|ends_with|len|is_empty)(::<.*>)?', m_str_opaque),
     (r'<[A-Z]\w? as PartialEq>::(eq|ne)', lambda M, a, c, fr: (M.val_eq(deref(M, a[0]), deref(M, a[1])) if c.endswith('eq') else z3.Not(M.val_eq(deref(M, a[0]), deref(M, a[1]))))),
+    (r'<[ui](8|16|32|64|128|size) as (Try)?From<([ui](8|16|32|64|128|size)|bool)>>::(try_)?from', m_int_from),
     (r'<.+ as Into<.+>>::into', m_into_via_from),
     (r'<.* as Clone>::clone', m_clone),
     (r'(std|core)::mem::replace::<.*>', m_replace), (r'(std|core)::mem::take::<.*>', m_take),
